@@ -273,7 +273,13 @@ func (m *extensionMap) Clear(xd protoreflect.ExtensionTypeDescriptor) {
 func (m *extensionMap) Get(xd protoreflect.ExtensionTypeDescriptor) protoreflect.Value {
 	if m != nil {
 		if x, ok := (*m)[int32(xd.Number())]; ok {
-			return x.Value()
+			v := x.Value()
+			if xd.IsList() && v.List().Len() == 0 {
+				// An empty list is unpopulated (see Has): like for regular
+				// fields, Get returns a read-only view, not the stored list.
+				return xd.Type().Zero()
+			}
+			return v
 		}
 	}
 	return xd.Type().Zero()
